@@ -416,6 +416,13 @@ class SigmaDetection(ParentChainMixin):
                             if k not in merged_dict:  # key doesn't exists in merged dict: just add
                                 merged_dict[k] = v
                             else:  # key collision, now things get complicated...
+                                if "|neq" in k:
+                                    # not (a) and not (b) can't be expressed by one negated
+                                    # and-linked item, which means not (a and b).
+                                    raise sigma_exceptions.SigmaValueError(
+                                        f"Can't merge negated items '{k}' into one item.",
+                                        source=self.source,
+                                    )
                                 if "|all" in k:  # key contains 'all' modifier
                                     mk = merged_dict[k]
                                     if not isinstance(
